@@ -7,7 +7,7 @@ use std::convert::TryInto;
 use serde_json::Value;
 
 use crate::error::Error;
-use crate::value::{Evaluated, Parsed};
+use crate::value::Evaluated;
 use crate::NULL;
 
 /// Valid types of variable keys
@@ -102,11 +102,12 @@ pub fn var(data: &Value, args: &Vec<&Value>) -> Result<Value, Error> {
     let key = args[0].try_into()?;
     let val = get_key(data, key);
 
+    // The default has already been evaluated with the other arguments; it is
+    // a value from here on and must not be interpreted as a rule again.
     Ok(val.unwrap_or(if arg_count < 2 {
         NULL
     } else {
-        let _parsed_default = Parsed::from_value(args[1])?;
-        _parsed_default.evaluate(&data)?.into()
+        args[1].clone()
     }))
 }
 
